@@ -160,6 +160,13 @@ def classify_return(v, subject):
         return ("operand", t[len(e) + 1 :])
     if t == "cst(0, %s.size)" % e:
         return ("zero",)
+    # a literal as wide as an operand: cst(K, e.l.size) / cst(K, e.r.size) / top(e.l.size) behaves like returning the operand
+    if isinstance(v, ast.Call) and isinstance(v.func, ast.Name) and v.func.id in ("cst", "top") and v.args:
+        w = norm(v.args[-1]) if v.func.id == "cst" and len(v.args) >= 2 else norm(v.args[0]) if v.func.id == "top" else None
+        if w in ("%s.l.size" % e, "%s.r.size" % e):
+            zero = v.func.id == "cst" and isinstance(v.args[0], ast.Constant) and v.args[0].value == 0
+            # the value reads as zero / a literal for the identity tables, the width as the operand's for R-WIDTH
+            return ("zero", "opwidth") if zero else ("literal", "opwidth")
     if t == "bit0":
         return ("bit", 0)
     if t == "bit1":
@@ -231,6 +238,7 @@ def r_algtab(repo, tier):
         desc = None
         allowed = None
         if fx.r_is_cst and fx.rvalue in (0, 1) and fx.ops is not None and cls[0] in ("operand", "zero") and not fx.samestr:
+            cls = ("zero",) if cls[0] == "zero" else cls
             if cls == ("operand", "l"):
                 allowed = set(ref["right_identity_%d" % fx.rvalue])
                 desc = "x op %d -> x" % fx.rvalue
@@ -441,6 +449,8 @@ def r_width(repo, tier):
         f = repo.func(EXPR, fname)
         for gr in guarded_returns(f.node, subj):
             cls = classify_return(gr.node.value, subj)
+            if cls in (("zero", "opwidth"), ("literal", "opwidth")):
+                cls = ("operand", "width")
             if cls[0] not in ("operand", "bit", "not", "ifexp"):
                 continue
             fx = Facts(gr, consts, subj)
@@ -1360,6 +1370,25 @@ def r_span(repo, tier):
                     out.inst("%s::%s" % (f.key, norm(x)[:80]), {"smask_update": norm(x)[:90], "same_bounds": same_bounds})
                     if span is not None and cnt is not None and (cnt != span or not same_bounds or kspan != span):
                         out.report(EXPR, f.dqual, norm(x)[:90], x.lineno, "the slice mask update does not cover exactly the bits of the key it records (slice %s:%s, key (%s, %s), count %s)" % (norm(t.slice.lower), norm(t.slice.upper), norm(klo), norm(khi), norm(v.right)))
+    # comp.cut removes *every* part under the written range: the parts it pops are enumerated from the whole mask slice
+    # self.smask[start:stop] (parts lying strictly inside the range have no bit at either bound)
+    cut = c.methods.get("cut")
+    if cut is None:
+        raise AnalysisError("R-SPAN: comp.cut vanished")
+    ps = cut.params()
+    lo, hi = (ps[1], ps[2]) if len(ps) >= 3 else (None, None)
+    full = []
+    for x in ast.walk(cut.node):
+        if isinstance(x, (ast.For, ast.comprehension)):
+            for k in ast.walk(x.iter):
+                if isinstance(k, ast.Subscript) and norm(k.value).endswith(".smask") and isinstance(k.slice, ast.Slice) and k.slice.lower is not None and k.slice.upper is not None and norm(k.slice.lower) == lo and norm(k.slice.upper) == hi:
+                    full.append(k)
+    pops = [x for x in ast.walk(cut.node) if isinstance(x, ast.Call) and isinstance(x.func, ast.Attribute) and x.func.attr == "pop" and norm(x.func.value).endswith(".parts")]
+    out.inst("%s::covered-parts" % cut.key, {"pops": [norm(p) for p in pops], "enumerated_from": [norm(k) for k in full]})
+    if pops and not full:
+        out.report(EXPR, cut.dqual, "covered parts of [%s:%s]" % (lo, hi), cut.node.lineno, "comp.cut pops parts but does not enumerate them from the whole mask slice self.smask[%s:%s]: a part lying strictly inside the written range is never removed and the comp keeps overlapping parts" % (lo, hi))
+    if not pops:
+        raise AnalysisError("R-SPAN: comp.cut no longer pops the covered parts (anchor changed)")
     out.stats["stores"] = nst
     if nst < 6:
         raise AnalysisError("R-SPAN: only %d part/smask stores found in class comp" % nst)
@@ -1407,4 +1436,45 @@ def r_glyph(repo, tier):
         else:
             seen[g] = s
     out.stats["symbols"] = len(syms)
+    return out
+
+
+# ======================================================================================= raw bit pattern vs sign-aware view
+def r_signview(repo, tier):
+    out = RuleOut(
+        "R-SIGNVIEW",
+        "a constant has two integer views: `.v` (the raw bit pattern, 0 <= v < 2**size) and `.value` (negative when the sign flag is "
+        "set and the top bit is 1).  Where bits are assembled -- an operand of |, ^, & or of a << that feeds them, outside the cst/cfp "
+        "operator methods whose result is re-masked by the constructor -- and where a 1-bit condition is tested (class tst), the "
+        "raw pattern is used: the sign-aware view of a 1-bit true condition is -1, and a negative low part sets every higher bit",
+    )
+    n = 0
+    for rel in (EXPR, "amoco/cas/mapper.py", "amoco/system/memory.py"):
+        m = repo.mod(rel)
+        for f in m.functions.values():
+            cname = f.cls.name if f.cls is not None else None
+            if cname in ("cst", "cfp"):
+                continue
+            for b in ast.walk(f.node):
+                if isinstance(b, ast.BinOp) and isinstance(b.op, (ast.BitOr, ast.BitXor, ast.BitAnd)):
+                    views = [x for x in ast.walk(b) if isinstance(x, ast.Attribute) and x.attr in ("v", "value") and isinstance(x.ctx, ast.Load)]
+                    if not views:
+                        continue
+                    n += 1
+                    bad = [x for x in views if x.attr == "value"]
+                    out.inst("%s::%s" % (f.key, norm(b)[:70]), {"function": f.dqual, "bit_assembly": norm(b)[:80], "views": [norm(x) for x in views]})
+                    for x in bad:
+                        out.report(rel, f.dqual, "bit assembly %s" % norm(b)[:80], b.lineno, "`%s` (sign-aware view) is an operand of the bit-level expression `%s`: for a signed part with its top bit set it is negative and sets every higher bit of the result; the raw pattern is `.v`" % (norm(x), norm(b)[:80]))
+            if cname == "tst":
+                for x in ast.walk(f.node):
+                    if isinstance(x, ast.Compare) and any(isinstance(k, ast.Attribute) and k.attr in ("v", "value") for k in ast.walk(x)):
+                        n += 1
+                        views = [k for k in ast.walk(x) if isinstance(k, ast.Attribute) and k.attr in ("v", "value")]
+                        out.inst("%s::%s" % (f.key, norm(x)), {"function": f.dqual, "condition_test": norm(x), "views": [norm(k) for k in views]})
+                        for k in views:
+                            if k.attr == "value":
+                                out.report(rel, f.dqual, "condition test %s" % norm(x), x.lineno, "the 1-bit condition is tested through its sign-aware view (`%s`): a true condition whose sign flag is set has value -1, so the other branch is selected" % norm(x))
+    out.stats["sites"] = n
+    if n < 2:
+        raise AnalysisError("R-SIGNVIEW: only %d sites (comp.restruct constant fusion and tst.eval expected)" % n)
     return out
